@@ -295,15 +295,31 @@ fn warn_name(w: &AutosarDataError) -> String {
     }
 }
 
-/// serialize + lenient reload of one file: (non-allowed warnings, text identical after re-serialization)
-pub fn reload_check(text: &str) -> (Vec<String>, Option<String>) {
+/// canonical dump of what a file contains: pre-order of its elements with attributes and character data
+pub fn file_view(f: &ArxmlFile) -> Vec<String> {
+    f.elements_dfs()
+        .map(|(d, e)| {
+            let attrs: Vec<String> = e.attributes().map(|a| format!("{}={}", a.attrname as u16, crate::tree::show_cdata(&a.content))).collect();
+            let cd: Vec<String> = e
+                .content()
+                .filter_map(|c| match c {
+                    ElementContent::CharacterData(x) => Some(crate::tree::show_cdata(&x)),
+                    _ => None,
+                })
+                .collect();
+            format!("{} {} [{}] [{}]", d, e.element_name() as u16, attrs.join(","), cd.join(","))
+        })
+        .collect()
+}
+
+/// serialize + lenient reload of one file: (non-allowed warnings, content of the re-loaded file)
+pub fn reload_check(text: &str) -> (Vec<String>, Option<Vec<String>>) {
     let m2 = AutosarModel::new();
     match m2.load_buffer(text.as_bytes(), "reload.arxml", false) {
         Err(e) => (vec![format!("LOAD-ERROR:{}", warn_name(&e))], None),
         Ok((f2, ws)) => {
             let bad: Vec<String> = ws.iter().map(warn_name).filter(|w| !w.starts_with("RequiredAttributeMissing@")).collect();
-            let t2 = f2.serialize().ok();
-            (bad, t2)
+            (bad, Some(file_view(&f2)))
         }
     }
 }
@@ -477,11 +493,11 @@ fn scenario(c: &mut Ctx, h: &mut LineHash, st: &mut St, ver: AutosarVersion, typ
                 bump(c, "reloads", 1);
                 match st.file.serialize() {
                     Ok(text) => {
-                        let (bad, t2) = reload_check(&text);
+                        let (bad, v2) = reload_check(&text);
                         if !bad.is_empty() {
                             c.disagree.push(format!("DISAGREE reload typ={} ver={} content={:?} created={} warnings={:?}", typ, vbit, content, n16, bad));
-                        } else if t2.as_deref() != Some(text.as_str()) {
-                            c.disagree.push(format!("DISAGREE reload-text typ={} ver={} content={:?} created={} re-serialized text differs", typ, vbit, content, n16));
+                        } else if v2 != Some(file_view(&st.file)) {
+                            c.disagree.push(format!("DISAGREE reload-content typ={} ver={} content={:?} created={} the re-loaded content differs", typ, vbit, content, n16));
                         }
                     }
                     Err(er) => c.disagree.push(format!("DISAGREE reload typ={} ver={} created={} serialize failed: {}", typ, vbit, n16, err_name(&er))),
@@ -628,23 +644,35 @@ fn hist_script(dump: String, probes: Vec<String>, ops: Vec<Op>, tx: mpsc::Sender
         let r = guard(|| {
             let mut out: Vec<String> = vec![];
             for (k, f) in ex.files.iter().enumerate() {
-                if f.model().is_err() {
+                // only files that are (still) part of a model
+                if !ex.models.iter().any(|m| m.files().any(|x| x == *f)) {
                     continue;
                 }
                 let mut sigs: HashSet<String> = HashSet::new();
                 match f.serialize() {
+                    // a file without any element of its own has no text
+                    Err(AutosarDataError::EmptyFile) | Err(AutosarDataError::NoFilesInModel) => {}
                     Err(e) => {
                         sigs.insert(format!("serialize-error:{}", err_name(&e)));
                     }
                     Ok(text) => {
-                        let (bad, t2) = reload_check(&text);
+                        let (bad, v2) = reload_check(&text);
+                        let show = std::env::var("AVH_RANGE_SHOW").is_ok();
+                        if !bad.is_empty() && show {
+                            out.push(format!("SHOW step={} file={} text={:?}", step, k, text));
+                        }
                         for b in bad {
                             // the line number is not part of the signature
                             sigs.insert(format!("warning:{}", b.split('@').next().unwrap_or("?")));
                         }
-                        if let Some(t2) = t2 {
-                            if t2 != text {
-                                sigs.insert("reserialize-differs".to_string());
+                        if let Some(v2) = v2 {
+                            let v1 = file_view(f);
+                            if v2 != v1 {
+                                sigs.insert("reload-content-differs".to_string());
+                                if show {
+                                    let d: Vec<String> = v1.iter().zip(v2.iter()).filter(|(a, b)| a != b).take(3).map(|(a, b)| format!("{} | {}", a, b)).collect();
+                                    out.push(format!("SHOW step={} file={} lines {} vs {} first differences: {:?}", step, k, v1.len(), v2.len(), d));
+                                }
                             }
                         }
                     }
@@ -695,6 +723,8 @@ pub fn hist_main(args: &[String]) {
                     } else if l.starts_with("HFAIL ") {
                         nfail += 1;
                         println!("{} script={}", l, idx);
+                    } else if l.starts_with("SHOW ") {
+                        println!("{} script={}", l, idx);
                     }
                 }
                 Ok(None) => break,
@@ -710,8 +740,127 @@ pub fn hist_main(args: &[String]) {
     std::process::exit(0);
 }
 
+// ------------------------------------------------------------------------------------------------ cross-version copies
+fn chain_of(parent: &HashMap<(u32, u32), ((u32, u32), ElementName, bool)>, t: (u32, u32)) -> String {
+    let mut chain: Vec<String> = vec![];
+    let mut cur = t;
+    while let Some((p, name, named)) = parent.get(&cur) {
+        chain.push(format!("{}:{}", *name as u16, *named as u8));
+        cur = *p;
+    }
+    chain.reverse();
+    if chain.is_empty() { "-".to_string() } else { chain.join(",") }
+}
+
+/// fills an element with one child per listed name (default position) and every listed attribute that accepts a simple value
+fn populate(e: &Element, depth: usize) {
+    for (k, v) in e.list_valid_sub_elements().iter().enumerate() {
+        if !v.is_allowed {
+            continue;
+        }
+        let r = if v.is_named { e.create_named_sub_element(v.element_name, &format!("c{}", k)) } else { e.create_sub_element(v.element_name) };
+        if let (Ok(ch), true) = (r, depth > 0) {
+            populate(&ch, depth - 1);
+        }
+    }
+}
+
+/// xcopy <dump>: for every (parent type, child name) whose child TYPE depends on the version: build the child in a file of
+/// version A, populate it, copy it into a parent of the same type in a file of version B, and re-load the target file
+pub fn xcopy_main(args: &[String]) {
+    let dump = &args[0];
+    let names = Names::load(dump);
+    let vbits = version_bits();
+    let all: Vec<ElementType> = reachable();
+    let mut bfs: HashMap<u32, (Vec<(u32, u32)>, HashMap<(u32, u32), ((u32, u32), ElementName, bool)>)> = HashMap::new();
+    for v in &vbits {
+        bfs.insert(*v, bfs_version(*v));
+    }
+    let (mut pairs, mut copied, mut bad) = (0u64, 0u64, 0u64);
+    let mut seen_sig: HashSet<String> = HashSet::new();
+    for t in &all {
+        let tid = et_ids(t);
+        // names whose type differs between two versions
+        let mut by_name: BTreeMap<u16, Vec<(u32, (u32, u32))>> = BTreeMap::new();
+        for (name, _ct, mask, _) in t.sub_element_spec_iter() {
+            for v in &vbits {
+                if mask & v != 0 {
+                    if let Some((ct, _)) = t.find_sub_element(name, *v) {
+                        by_name.entry(name as u16).or_default().push((*v, et_ids(&ct)));
+                    }
+                }
+            }
+        }
+        for (n16, l) in by_name {
+            let mut tys: Vec<(u32, u32)> = l.iter().map(|x| x.1).collect();
+            tys.sort();
+            tys.dedup();
+            if tys.len() < 2 {
+                continue;
+            }
+            // one representative version per child type, then all ordered pairs
+            let reps: Vec<(u32, (u32, u32))> = tys.iter().map(|ty| *l.iter().find(|x| x.1 == *ty).unwrap()).collect();
+            for (va, ta) in &reps {
+                for (vb, tb) in &reps {
+                    if ta == tb {
+                        continue;
+                    }
+                    let (Some(ba), Some(bb)) = (bfs.get(va), bfs.get(vb)) else { continue };
+                    if !ba.0.contains(&tid) || !bb.0.contains(&tid) {
+                        continue;
+                    }
+                    pairs += 1;
+                    let name = names.elname(n16).unwrap();
+                    let r = guard(|| -> Result<Vec<String>, String> {
+                        let (_ma, _fa, pa) = build(*va, &chain_of(&ba.1, tid), &names)?;
+                        let (_mb, fb, pb) = build(*vb, &chain_of(&bb.1, tid), &names)?;
+                        let vera = AutosarVersion::from_val(*va).unwrap();
+                        let src_named = pa.element_type().find_sub_element(name, *va).map(|(ct, _)| ct.is_named_in_version(vera)).unwrap_or(false);
+                        let src = if src_named { pa.create_named_sub_element(name, "src") } else { pa.create_sub_element(name) }.map_err(|e| format!("create source: {}", err_name(&e)))?;
+                        populate(&src, 1);
+                        let cp = pb.create_copied_sub_element(&src).map_err(|e| format!("copy: {}", err_name(&e)))?;
+                        let mut out = vec![];
+                        if et_ids(&cp.element_type()) != *tb {
+                            out.push(format!("type-of-copy {:?} expected {:?}", et_ids(&cp.element_type()), tb));
+                        }
+                        let text = fb.serialize().map_err(|e| format!("serialize: {}", err_name(&e)))?;
+                        let (w, v2) = reload_check(&text);
+                        for x in w {
+                            out.push(format!("reload-warning {}", x.split('@').next().unwrap_or("?")));
+                        }
+                        if let Some(v2) = v2 {
+                            if v2 != file_view(&fb) {
+                                out.push("reload-content-differs".to_string());
+                            }
+                        }
+                        Ok(out)
+                    });
+                    match r {
+                        Ok(Ok(problems)) => {
+                            copied += 1;
+                            if !problems.is_empty() {
+                                bad += 1;
+                                let mut p2 = problems.clone();
+                                p2.sort();
+                                p2.dedup();
+                                let sig = p2.join(";");
+                                let first = seen_sig.insert(format!("{}", sig));
+                                println!("XCOPY parent=({},{}) name={} from={} to={} {}{}", tid.0, tid.1, n16, va, vb, sig, if first { " FIRST" } else { "" });
+                            }
+                        }
+                        Ok(Err(m)) => println!("XSKIP parent=({},{}) name={} from={} to={} {}", tid.0, tid.1, n16, va, vb, m),
+                        Err(_) => println!("XCOPY parent=({},{}) name={} from={} to={} PANIC", tid.0, tid.1, n16, va, vb),
+                    }
+                }
+            }
+        }
+    }
+    println!("STAT xcopy pairs={} copied={} with_problems={}", pairs, copied, bad);
+}
+
 pub fn main(args: &[String]) {
     match args[0].as_str() {
+        "xcopy" => xcopy_main(&args[1..]),
         "plan" => plan_main(&args[1..]),
         "sweep" => sweep_main(&args[1..]),
         "hist" => hist_main(&args[1..]),
